@@ -46,7 +46,15 @@
     (normally or by close-timeout) only when that generation's recv loop holds no un-routed frame;
     the recv loop blocks only in application handlers, which run AFTER the routing step, and a
     read on the closed socket fails — so [Join g] requires [g_rbuf g = None].
-    Not modelled: autoS9F9, session-id validation, decode-error handlers (all off by default). *)
+    Both transports sit under this one engine: for HSMS-SS [WriteOk]/[WriteFail] stand for the
+    writev on the generation's socket; for SECS-I they stand for the hand-off to THAT generation's
+    line engine plus the block transaction ([secs1.transport.Write] refuses with ErrConnClosed
+    unless the caller's socket is the live generation's socket — the same binding); a SECS-I
+    generation is Selected as soon as it is up ([TCPUp] then [Select] with nothing in between).
+    autoS9F9 (on in the SECS-I/HSMS equipment role): the S9F9 notice after a T3 is an ordinary
+    asynchronous data call entered by the environment ([Enter c KAsync] after [CompleteTimer]); the
+    S9F1 notice of session-id validation likewise.  Not modelled: decode-error handlers (off by
+    default; they only divert the handler fan-out). *)
 From Coq Require Import ZArith Bool List Lia Arith.
 Import ListNotations.
 
